@@ -452,6 +452,72 @@ fn ear_bit(ctx: &Ctx) {
     ctx.note("ear_levels_seen", json!(seen.len()));
 }
 
+/// What an ULA write does with each data bit: bits 0-2 border, bit 3 MIC, bit 4 speaker, bits 5-7
+/// nothing. All 256 data bytes to three even ports on both machines; MIC and speaker are observed
+/// through the audio level they hold over the following frame (four distinct levels, ordered
+/// none < MIC < speaker < both, that depend on bits 3 and 4 only).
+fn ula_write_data_bits(ctx: &Ctx) {
+    for m128 in [false, true] {
+        let mut o = Opts::machine(m128);
+        o.sound = true;
+        o.beeper = true;
+        o.ay = false;
+        o.rate = 8000;
+        let mut e = rig::emu_stepping(&o);
+        rig::poke(&mut e, 0x9000, &[0xF3, 0x18, 0xFE]);
+        let mut level = |e: &mut Emu, port: u16, d: u8| -> (Option<f32>, u8) {
+            e.set_debug_interface(rig::VDebug::always());
+            rig::cpu_out(e, CODE, port, d);
+            e.verif_cpu().regs.set_pc(0x9000);
+            e.set_debug_interface(rig::VDebug::at(&[]));
+            let _ = e.emulate_frames(std::time::Duration::from_secs(100));
+            rig::drain_audio(e);
+            let _ = e.emulate_frames(std::time::Duration::from_secs(100));
+            let a = rig::drain_audio(e);
+            let l = a.first().map(|s| s.0);
+            let steady = !a.is_empty() && a.iter().all(|s| Some(s.0) == l && s.1 == s.0);
+            (if steady { l } else { None }, e.border_color() as u8)
+        };
+        let mname = if m128 { "128k" } else { "48k" };
+        let mut base = [0f32; 4];
+        for k in 0..4u8 {
+            let (l, _) = level(&mut e, 0x00FE, k << 3);
+            base[k as usize] = l.unwrap_or(-1.0);
+        }
+        ctx.add_eval(4);
+        if !(base[0] == 0.0 && base[0] < base[1] && base[1] < base[2] && base[2] < base[3]) {
+            ctx.violation(
+                &format!("C07:ula-write:levels:{}", mname),
+                &format!("{}: the audio level held after OUT (FE) with data 00/08/10/18 is {:?}: expected silence < MIC < speaker < both", mname, base),
+                json!({"kind":"ula-write","m128":m128}),
+            );
+            continue;
+        }
+        for port in [0x00FEu16, 0x553E, 0xFFFE] {
+            for d in 0..=255u8 {
+                let (l, b) = level(&mut e, port, d);
+                ctx.add_eval(1);
+                let want = base[((d >> 3) & 3) as usize];
+                if b != d & 7 {
+                    ctx.violation(
+                        &format!("C07:ula-write:border:{}", mname),
+                        &format!("{}: OUT ({:04x}),{:02x}: border colour reported {} instead of {}", mname, port, d, b, d & 7),
+                        json!({"kind":"ula-write","m128":m128,"port":port,"data":d}),
+                    );
+                }
+                if l != Some(want) {
+                    ctx.violation(
+                        &format!("C07:ula-write:mic-speaker:{}", mname),
+                        &format!("{}: OUT ({:04x}),{:02x}: audio level held afterwards {:?}, MIC (bit 3) = {} and speaker (bit 4) = {} give {}", mname, port, d, l, (d >> 3) & 1, (d >> 4) & 1, want),
+                        json!({"kind":"ula-write","m128":m128,"port":port,"data":d}),
+                    );
+                }
+                ctx.outcome(0x07A0 ^ (want.to_bits() as u64) ^ ((b as u64) << 40));
+            }
+        }
+    }
+}
+
 pub fn run(tier: Tier, seed: u64, replay: Option<String>) -> i32 {
     let ctx = Ctx::new("C07", tier, seed, "model_checking");
     if let Some(path) = replay {
@@ -462,6 +528,8 @@ pub fn run(tier: Tier, seed: u64, replay: Option<String>) -> i32 {
             let p = c["port"].as_u64().unwrap() as u32;
             println!("replay: config {} port {:04x}: claims(read)={:?} claims(write)={:?}", cfg_name(&cfg), p, claims(&cfg, p as u16, false), claims(&cfg, p as u16, true));
             sweep(&ctx, &cfg, p, p + 1);
+        } else if c["kind"] == "ula-write" {
+            ula_write_data_bits(&ctx);
         } else if c["kind"] == "floating" {
             floating_bus(&ctx, c["m128"].as_bool().unwrap(), c["shadow"].as_bool().unwrap());
         } else {
@@ -497,11 +565,12 @@ pub fn run(tier: Tier, seed: u64, replay: Option<String>) -> i32 {
     floating_bus(&ctx, true, false);
     floating_bus(&ctx, true, true);
     ear_bit(&ctx);
+    ula_write_data_bits(&ctx);
     ctx.note("configurations", json!(cfgs.iter().map(cfg_name).collect::<Vec<_>>()));
     ctx.sample(json!({"port":"0x7FFD","config":"128k","claims_write":["paging"],"claims_read":[]}));
     ctx.note("not_judged", json!("addresses selecting two devices (e.g. even ports with A15=0,A1=0 on the 128K; even ports with A15=A14=1,A1=0), the wider A0=1,A5=0 family the word '-style' leaves open for the mouse, the phase of the floating bus inside the fetch window (+-8 T guard band)"));
     ctx.finish(
-        "all 65536 port addresses x {IN A,(C), OUT (C),A executed by the emulated CPU} x {48K,128K} x Kempston on/off x mouse on/off x extender claim set {none, {CCCC}, odd ports with A7=1, {00FE}}; device read-back values pairwise distinct (key pattern with 8 distinct half-rows, Kempston 15h, mouse counters, AY register 5Ah, extender E7h, floating bus FFh in the border), write effects observed through border_color, the paging latch, AY read-back and the extender log; three-valued claim table from the statement, a port is judged when exactly one device claims it and none may; floating bus: an unclaimed port read at every T of the frame on 48K, 128K and 128K with the shadow screen displayed. states = (configuration, port) pairs",
+        "all 65536 port addresses x {IN A,(C), OUT (C),A executed by the emulated CPU} x {48K,128K} x Kempston on/off x mouse on/off x extender claim set {none, {CCCC}, odd ports with A7=1, {00FE}}; device read-back values pairwise distinct (key pattern with 8 distinct half-rows, Kempston 15h, mouse counters, AY register 5Ah, extender E7h, floating bus FFh in the border), write effects observed through border_color, the paging latch, AY read-back and the extender log; three-valued claim table from the statement, a port is judged when exactly one device claims it and none may; ULA write data bits: all 256 data bytes to three even ports on both machines, border colour reported and the audio level held over the next frame (MIC bit 3, speaker bit 4, four ordered levels); floating bus: an unclaimed port read at every T of the frame on 48K, 128K and 128K with the shadow screen displayed. states = (configuration, port) pairs",
         true,
         &["claim table transcribed from the property statement", "frame clock placed through the hook for the floating-bus sweep"],
     )
